@@ -34,3 +34,24 @@ Definition check_run (plant : list (comp * cin)) (es : list edge) (swbs : list n
   negb (finite_run plant es swbs sts (length dt)) ||
   (close_num 1 obs_fuel (Fin (run_figure (lin_rate cs cn) plant es swbs sts dt)) &&
    close_num 1 obs_hours (Fin (run_figure (hours_rate gs) plant es swbs sts dt))).
+
+(* ---- the same with multi-point characteristics: every genset has a generator efficiency CURVE and a specific
+   consumption CURVE (PCHIP over Q, Base/Pchip.v); fuel rate = bsfc(engine load) x engine power / 3.6e6 with
+   engine power = output / efficiency(generator load) (Model/FuelRun.v, Model/Component.v).  Steps at which a
+   genset is pushed below zero output are outside this check. ---- *)
+From Feems Require Import Base.Pchip Model.Component Model.FuelRun Check.Check_C06.
+Definition genset_rate (gr : Q) (ge : Q -> Q) (er : Q) (bs : Q -> Q) (p : Q) : Q :=
+  if Qle_bool p 0 then 0 else engine_fuel er bs (fwd gr ge p).
+Definition curve_rate (gs : list (option (Q * (Q -> Q) * Q * (Q -> Q)))) (j : nat) (p : Q) : Q :=
+  match nth j gs None with Some (gr, ge, er, bs) => genset_rate gr ge er bs p | None => 0 end.
+Definition mk_genset (gr : Q) (ge : curve) (er : Q) (bs : curve) : option (Q * (Q -> Q) * Q * (Q -> Q)) :=
+  Some (gr, curve_fn ge, er, curve_fn bs).
+Definition nonneg_sources (plant : list (comp * cin)) (es : list Bus.edge) (swbs : list nat) (sts : list (list bool)) (n : nat) : bool :=
+  forallb (fun t => all2 (fun ci x => match c_kind (fst ci), x with
+                                       | Source, Fin q => Qle_bool 0 q
+                                       | _, Fin _ => true
+                                       | _, NonFinite => false end) plant (balance_step plant es swbs sts t)) (seq 0 n).
+Definition check_run_curves (plant : list (comp * cin)) (es : list Bus.edge) (swbs : list nat) (sts : list (list bool)) (dt : list Q)
+    (gs : list (option (Q * (Q -> Q) * Q * (Q -> Q)))) (obs_fuel : fl) : bool :=
+  negb (nonneg_sources plant es swbs sts (length dt)) ||
+  close_num 1 obs_fuel (Fin (run_figure (curve_rate gs) plant es swbs sts dt)).
